@@ -7,7 +7,7 @@ from ..num import Num, Fail
 
 ID = "C05"
 LEVEL = "exploration"
-RULE = ("evaluation = one (operator, left operand, right operand) triple - the operator written as an expression `a op b` or, for + - * / % where the result keeps the left kind, as the op-assignment `t op= b` on a variable / a list element / an object field - whose operands reach the operator through "
+RULE = ("evaluation = one (operator, left operand, right operand) triple - the operator written as an expression `a op b` or, for + - * / % where the result keeps the left kind, as the op-assignment `t op= b` on a variable / a list element / an object field (stored, and USED AS A VALUE: `r = t op= b` on a variable / element / field / map entry) - whose operands reach the operator through "
         "run-time variables; enumerated part = every operator (+ - * / % < <= > >= == != on the 16 kind pairs, & | xor << >> "
         "on the 9 non-float pairs, unary - and !) x ALL pairs of the boundary-value set of each kind, plus every comparison of an integer with the doubles 0, 1 and 2 ulps (and 0.5) on either side of it in both operand orders; random part = "
         "Hypothesis operands. Oracle = exact arithmetic in Python ints / IEEE doubles + the statement's promotion table; "
@@ -46,7 +46,7 @@ def model(op, a, b):
 HOLDERS = "".join("class H%s {\n\tv: %s\n\tconstructor(self, v: %s) {\n\t\tself.v = v\n\t}\n}\n" % (k, k, k) for k in ("int", "bigint", "float", "byte")) + \
     "".join("class HO%s {\n\tv: %s?\n\tconstructor(self, v: %s?) {\n\t\tself.v = v\n\t}\n}\n" % (k, k, k) for k in ("int", "bigint", "float", "byte"))
 WRAPPED = ("wrapped-elem", "wrapped-field", "wrapped-entry", "wrapped-var")
-FORMS = ("expr", "var", "elem", "field")
+FORMS = ("expr", "var", "elem", "field", "var-value", "elem-value", "field-value", "entry-value")
 
 
 def pair_src(i, op, a, b, form="expr"):
@@ -72,7 +72,18 @@ def pair_src(i, op, a, b, form="expr"):
     if form != "expr":
         lines = ['print "@%d"' % i] + num.init_stmts(an, a) + ["print " + an] + num.init_stmts(bn, b) + ["print " + bn]
         exp = ["str:@%d" % i, "%s:%s" % (a.k, num.fmt(a)), "%s:%s" % (b.k, num.fmt(b))]
-        if form == "var":
+        if form.endswith("-value"):
+            # the op-assignment USED AS A VALUE: it yields the result it stored (same kind, same value)
+            if form == "var-value":
+                lines += ["t%d: %s = %s" % (i, a.k, an), "r%d = t%d %s= %s" % (i, i, op, bn)]
+            elif form == "elem-value":
+                lines += ["l%d: [%s...] = [%s, %s]" % (i, a.k, an, an), "r%d = l%d[1] %s= %s" % (i, i, op, bn)]
+            elif form == "field-value":
+                lines += ["h%d = H%s(%s)" % (i, a.k, an), "r%d = h%d.v %s= %s" % (i, i, op, bn)]
+            else:
+                lines += ["m%d = map[str, %s] {\"k\": %s}" % (i, a.k, an), "r%d = m%d[\"k\"] %s= %s" % (i, i, op, bn)]
+            lines += ["print r%d" % i]
+        elif form == "var":
             lines += ["t%d: %s = %s" % (i, a.k, an), "t%d %s= %s" % (i, op, bn), "print t%d" % i]
         elif form == "elem":
             lines += ["l%d: [%s...] = [%s, %s]" % (i, a.k, an, an), "l%d[1] %s= %s" % (i, op, bn), "print l%d[1]" % i]
@@ -96,7 +107,7 @@ def pair_src(i, op, a, b, form="expr"):
 def single_scenario(op, a, b, form="expr"):
     lines, exp = pair_src(0, op, a, b, form)
     kind, val = model(op, a, b)
-    src = (HOLDERS if form in ("field", "wrapped-field") else "") + "\n".join(lines) + "\nprint \"@end\"\n"
+    src = (HOLDERS if form in ("field", "wrapped-field", "field-value") else "") + "\n".join(lines) + "\nprint \"@end\"\n"
     steps = [{"id": "run", "argv": ["mscript", "run", "main.ms", "-q"], "env": ENV}]
     ok_asserts = [{"kind": "stdout_eq", "step": "run", "float_by_value": True, "value": "\n".join(exp + [val, "str:@end"]) + "\n"},
                   {"kind": "exit", "step": "run", "in": ["ok"]}]
@@ -179,7 +190,7 @@ def check(case):
             l, e = pair_src(i, op, a, b, form)
             lines += l
             exp += e + [model(op, a, b)[1]]
-        sc = scenario.simple((HOLDERS if form in ("field", "wrapped-field") else "") + "\n".join(lines) + "\n", [{"id": "run", "argv": ["mscript", "run", "main.ms", "-q"], "env": ENV}],
+        sc = scenario.simple((HOLDERS if form in ("field", "wrapped-field", "field-value") else "") + "\n".join(lines) + "\n", [{"id": "run", "argv": ["mscript", "run", "main.ms", "-q"], "env": ENV}],
                              [{"kind": "stdout_eq", "step": "run", "float_by_value": True, "value": "\n".join(exp) + "\n"},
                               {"kind": "exit", "step": "run", "in": ["ok"]}])
         res, fails, _ = scenario.execute(sc)
